@@ -1168,6 +1168,7 @@ namespace bloch::runtime {
                     f.isStatic = field->isStatic;
                     f.isFinal = field->isFinal;
                     f.isTracked = field->isTracked;
+                    f.declaredIn = clsNode->name;
                     f.initializer = field->initializer.get();
                     f.hasInitializer = field->initializer != nullptr;
                     if (auto arr = dynamic_cast<ArrayType*>(field->fieldType.get()))
@@ -1301,6 +1302,7 @@ namespace bloch::runtime {
                 f.isStatic = field->isStatic;
                 f.isFinal = field->isFinal;
                 f.isTracked = field->isTracked;
+                f.declaredIn = tmpl->name;
                 f.initializer = field->initializer.get();
                 f.hasInitializer = field->initializer != nullptr;
                 if (auto arr = dynamic_cast<ArrayType*>(field->fieldType.get()))
@@ -1730,15 +1732,7 @@ namespace bloch::runtime {
         }
         // Reset tracked qubits
         if (obj->cls) {
-            for (size_t i = 0; i < obj->fields.size(); ++i) {
-                if (i >= obj->cls->instanceFields.size())
-                    continue;
-                const auto& fieldMeta = obj->cls->instanceFields[i];
-                if (fieldMeta.isTracked && (obj->fields[i].type == Value::Type::Qubit ||
-                                            obj->fields[i].type == Value::Type::QubitArray)) {
-                    recordTrackedValue(obj->cls->name + "." + fieldMeta.name, obj->fields[i]);
-                }
-            }
+            recordTrackedFields(obj);
             // Release the qubits this object allocated for its own fields. A field that was
             // assigned a handle owned by someone else (a caller's qubit stored by a
             // constructor) must not take that qubit down with it.
@@ -1759,6 +1753,27 @@ namespace bloch::runtime {
         std::vector<Value> dying = std::move(obj->fields);
         obj->fields.clear();
         dying.clear();
+    }
+
+    // One outcome per @tracked field of an object whose life ends. The table is named after
+    // the class that declares the field: an inherited field of a subclass instance (or of two
+    // instantiations of a generic class) is the same declaration, and a subclass's own field
+    // of the same name is a different one.
+    void RuntimeEvaluator::recordTrackedFields(Object* obj) {
+        if (!obj || !obj->cls || obj->trackedRecorded)
+            return;
+        obj->trackedRecorded = true;
+        for (size_t i = 0; i < obj->fields.size(); ++i) {
+            if (i >= obj->cls->instanceFields.size())
+                continue;
+            const auto& fieldMeta = obj->cls->instanceFields[i];
+            if (fieldMeta.isTracked && (obj->fields[i].type == Value::Type::Qubit ||
+                                        obj->fields[i].type == Value::Type::QubitArray)) {
+                const std::string& owner =
+                    fieldMeta.declaredIn.empty() ? obj->cls->name : fieldMeta.declaredIn;
+                recordTrackedValue(owner + "." + fieldMeta.name, obj->fields[i]);
+            }
+        }
     }
 
     void RuntimeEvaluator::runFieldInitialisers(RuntimeClass* cls,
